@@ -512,9 +512,7 @@ class Textgrid:
 
     def renameTier(self, oldName: str, newName: str) -> None:
         oldTier = self.getTier(oldName)
-        tierIndex = self.tierNames.index(oldName)
-        self.removeTier(oldName)
-        self.addTier(oldTier.new(newName, oldTier.entries), tierIndex)
+        self.replaceTier(oldName, oldTier.new(newName, oldTier.entries))
 
     def removeTier(self, name: str) -> textgrid_tier.TextgridTier:
         return self._tierDict.pop(name)
@@ -526,8 +524,13 @@ class Textgrid:
         reportingMode: Literal["silence", "warning", "error"] = "warning",
     ) -> None:
         tierIndex = self.tierNames.index(name)
-        self.removeTier(name)
-        self.addTier(newTier, tierIndex, reportingMode)
+        oldTier = self.removeTier(name)
+        try:
+            self.addTier(newTier, tierIndex, reportingMode)
+        except Exception:
+            # addTier failed before changing anything: put the old tier back
+            self.addTier(oldTier, tierIndex, constants.ErrorReportingMode.SILENCE)
+            raise
 
     def validate(
         self, reportingMode: Literal["silence", "warning", "error"] = "warning"
